@@ -102,6 +102,9 @@ func runC08Model(res *lp.Result, inputs [][]byte) {
 		add("zb e "+hx(in)+" "+hx(enc), "ok", d)
 		dec0, derr0 := gosnappy.Decode(nil, enc)
 		law(derr0 == nil && bytes.Equal(dec0, in), "snappy_decode_encode")
+		dl, dlerr := gosnappy.DecodedLen(enc)
+		law(dlerr == nil && dl == len(in), "snappy_decodedLen_encode")
+		law(len(in) <= 64*len(enc), "snappy_ratio")
 		law(len(enc) <= 32+len(in)+len(in)/6, "snappy_bound")
 		var o3 bytes.Buffer
 		e = s.CompressWithLength(bytes.NewBuffer(append([]byte{}, in...)), &o3)
@@ -125,8 +128,23 @@ func runC08Model(res *lp.Result, inputs [][]byte) {
 			add("cmp lz4 dwl "+hx(c), showOut(out.Bytes(), e, rd.Len()), d)
 			res.Count("model/lz4/dwl")
 		}
-		for _, c := range [][]byte{o3.Bytes(), in} {
-			dec, derr := gosnappy.Decode(nil, c)
+		huge := append([]byte{0xab, 0xfd, 0xfd, 0xb8, 0x0d}, in...) // varint header declaring about 3 GB
+		if len(huge) > 40 {
+			huge = huge[:40]
+		}
+		for _, c := range [][]byte{o3.Bytes(), in, huge} {
+			if n, lerr := gosnappy.DecodedLen(c); lerr != nil {
+				add("zb l "+hx(c)+" !", "ok", d)
+			} else {
+				add(fmt.Sprintf("zb l %s %d", hx(c), n), "ok", d)
+			}
+			var dec []byte
+			var derr error
+			if n, lerr := gosnappy.DecodedLen(c); lerr == nil && n > 64*len(c)+1<<20 {
+				derr = fmt.Errorf("not decoded by the harness: declared length %d", n) // the wrapper must refuse before decoding
+			} else {
+				dec, derr = gosnappy.Decode(nil, c)
+			}
 			add("zb d "+hx(c)+" "+orBang(dec, derr), "ok", d)
 			var out bytes.Buffer
 			rd := bytes.NewReader(c)
